@@ -48,8 +48,9 @@ def Dir.paths (d : Dir) : List Str := d.map (·.1)
 
 /-- Everything tranp delegates to md5, lark, the analyser and the renderer. -/
 structure Sem where
-  /-- `md5(str({'grammar_mtime': g, 'mtime': t}))` (parser.py:98-101) -/
-  treeIdent : Nat → Nat → Str
+  /-- `md5(str({'grammar_mtime': g, 'grammar': path, 'start': …, 'algorithem': …, 'mtime': t}))` (parser.py:100-106, since
+      9dfb5b4), arguments: grammar path, start, algorithm, grammar mtime, source mtime -/
+  treeIdent : Str → Str → Str → Nat → Nat → Str
   /-- `md5(str({'mtime': g, 'grammar': path, 'start': …, 'algorithem': …}))` (parser.py:63-68), arguments: grammar path,
       start, algorithm, grammar mtime -/
   parserIdent : Str → Str → Str → Nat → Str
@@ -94,7 +95,7 @@ def cachePath (key ident ext : Str) : Str := key ++ '-' :: (ident ++ ext)
 /-- `f'{basepath}-symbols-{identity}.json'` -/
 def symPath (key ident : Str) : Str := key ++ (symInfix ++ (ident ++ jsonExt))
 
-def treePath (S : Sem) (key : Str) (g t : Nat) : Str := cachePath key (S.treeIdent g t) jsonExt
+def treePath (S : Sem) (key : Str) (gp st al : Str) (g t : Nat) : Str := cachePath key (S.treeIdent gp st al g t) jsonExt
 def parserPath (S : Sem) (gp st al : Str) (g : Nat) : Str := cachePath parserKey (S.parserIdent gp st al g) binExt
 
 /-- `'-'.join(cache_path.split('-')[:-1])` (cache.py:160-161) -/
@@ -236,7 +237,7 @@ def treeGet (S : Sem) (s : Sess) (key : Str) : Sess × Option Str :=
   | (s, some pz) =>
     match s.w.srcs.get? key with
     | none => (s.fail .noSource, none)
-    | some src => cacheGet S s (dirname key) key (S.treeIdent s.w.grammarMtime src.mtime) jsonExt (S.parse pz src.data) false
+    | some src => cacheGet S s (dirname key) key (S.treeIdent s.w.grammar s.w.start s.w.algo s.w.grammarMtime src.mtime) jsonExt (S.parse pz src.data) false
 
 def pyExt : Str := ['.', 'p', 'y']
 
@@ -388,6 +389,7 @@ inductive Op
   | trunc (path : Str) (k : Nat) -- an interrupted write: the file keeps its first k bytes (a proper prefix)
   | enable (b : Bool)
   | grammar (path : Str)         -- the configuration names another grammar file / the grammar file is rewritten: fresh mtime
+  | setting (path start algo : Str)  -- `ParserSetting` is changed (another grammar file with the SAME mtime, another start rule / algorithm)
 deriving Repr
 
 def World.clearCache (w : World) : World := { w with cache := [], dirs := [] }
@@ -404,6 +406,7 @@ def step (S : Sem) (w : World) : Op → World
     | none => w
   | .enable b => { w with enabled := b }
   | .grammar path => { w with grammar := path, grammarMtime := w.clock, clock := w.clock + 1 }
+  | .setting path st al => { w with grammar := path, start := st, algo := al }
 
 def exec (S : Sem) (w : World) (h : List Op) : World := h.foldl (step S) w
 
